@@ -26,6 +26,7 @@ var vFiles = map[*os.File]*vFile{}
 var vFileList []*vFile
 var vByName = map[string]*vFile{}
 var vCreateTempFail bool
+var vWriteFails, vCloseFails, vRenameFails bool // reported I/O errors (the process keeps running)
 var errVDisk = errors.New("disk error (model)")
 var errVClosed = errors.New("file already closed (model)")
 
@@ -79,6 +80,13 @@ func stubFileWrite(f *os.File, p []byte) (int, error) {
 		vf.off += len(p)
 		vFSStep()
 		return len(p), nil
+	}
+	if vWriteFails {
+		// the disk fills up part-way through: a truncated document is left in this (temporary) file and the error is reported
+		t := vJSONTruncate(p)
+		vf.data = append(vf.data[:vf.off], t...)
+		vf.off += len(t)
+		return len(t), errVDisk
 	}
 	if vCrashAfter >= 0 && vFSOps == vCrashAfter {
 		// killed inside the write: a truncated document is left in this (temporary) file
@@ -161,6 +169,9 @@ func stubFileClose(f *os.File) error {
 		return errVClosed
 	}
 	vf.closed = true
+	if vCloseFails {
+		return errVDisk
+	}
 	return nil
 }
 
@@ -260,6 +271,9 @@ func stubOsOpen(name string) (*os.File, error) {
 //verif:stub os.Rename
 func stubOsRename(oldpath, newpath string) error {
 	vFSStep()
+	if vRenameFails {
+		return errVDisk
+	}
 	src := vByName[oldpath]
 	if src == nil || src.removed {
 		return &os.PathError{Op: "rename", Path: oldpath, Err: os.ErrNotExist}
